@@ -349,6 +349,24 @@ def check_exits_in_decoders(rep, prog, runs):
     rep.count("exit sites in decoder modules", n)
 
 
+def check_regex_termination(rep, prog):
+    """every constant regular expression the decoders apply to decoded text must not admit exponentially many parses of
+    one line (Python's backtracking engine would then not terminate in reasonable time on a crafted string)"""
+    from ..automata import ambiguous_star
+    rule = "C05.R4.termination"
+    n = 0
+    for cs in effects.call_sites(prog):
+        if cs.name in ("re.compile", "re.match", "re.fullmatch", "re.search", "re.sub", "re.findall", "re.split") and cs.node.args:
+            a0 = cs.node.args[0]
+            if isinstance(a0, ast.Constant) and isinstance(a0.value, str):
+                n += 1
+                why = ambiguous_star(a0.value)
+                rep.check(why is None, rule, "regex at %s:%s has no ambiguous alternation under '*'" % (cs.module.rel, cs.node.lineno), cs.qual, cs.node,
+                          "the regular expression %r is ambiguous (%s): on a long run of such characters followed by a mismatch the match "
+                          "takes exponential time - decoding one crafted PEL never finishes" % (a0.value, why), node=cs.node, file=cs.module.rel)
+    rep.count("constant regular expressions examined", n)
+
+
 def run(rep, prog, thorough):
     rep.explanation = (
         "R1: DataStream's buffer slices / index advances are interpreted with symbolic index, size and n; their path "
@@ -365,7 +383,11 @@ def run(rep, prog, thorough):
     check_loops(rep, runs)
     check_barriers_all_modes(rep, prog)
     check_exits_in_decoders(rep, prog, runs)
+    check_regex_termination(rep, prog)
     # R5: a truncated log must run into a failing checked read: the section loop may not stop early on its own
-    from .c01 import check_loop
+    from .c01 import check_loop, check_callout_accounting, check_getcallouts_progress
     check_loop(rep, prog, pfx="C05.R5-prefix-rejection")
+    # ... and the callout subsection is accounted by the bytes actually read, not by what a size byte claims (shared with C01)
+    check_callout_accounting(rep, prog, pfx="C05.R5-prefix-rejection")
+    check_getcallouts_progress(rep, prog)
     rep.note("R5 (every proper prefix of a well-formed PEL is rejected) is derived from R1 + C01.R4 (exact consumption), not re-proved here")
